@@ -351,6 +351,7 @@ class Gen:
         self.budget = nstmts
         self.anon = 0
         self.ntests = 0
+        self.chained = False
         self.extras = True   # .text with interpolated symbols, .test blocks, .assert/.trace (no bytes in a build)
 
     def define(self, scope, kind):
@@ -464,6 +465,8 @@ class Gen:
                 if k == "block":
                     for m in self.defs.get(scope[:i] + (n,), {}):
                         out.append([n, m])
+        if self.segments and kind != "near":
+            out += [["segments", sg, e] for sg in ("sa", "sb") for e in ("start", "end")]
         if scope:
             for n in self.defs.get(scope[:-1], {}):
                 out.append(["super", n])
@@ -508,7 +511,11 @@ class Gen:
             prog.append(defseg("sa", num(a0, "hex")))
             b0 = r.choice([0x4000, 0x00E0, 0xFA])
             relocated = r.random() < 0.7
-            prog.append(defseg("sb", num(b0, "hex"), num(r.choice([0x8000, 0x00F0, 0x0200]), "hex") if relocated else None))
+            # every third time the second segment is chained to the end of the first: its place moves with every byte the
+            # first one gains, and the segment symbols are the last thing to settle
+            self.chained = r.random() < 0.35
+            bstart = ident(["segments", "sa", "end"]) if self.chained else num(b0, "hex")
+            prog.append(defseg("sb", bstart, num(r.choice([0x8000, 0x00F0, 0x0200]), "hex") if (relocated and not self.chained) else None))
         else:
             if r.random() < 0.3:       # some code at the default origin first
                 prog += self.block((), 0)
